@@ -1995,6 +1995,12 @@ impl<W: std::io::Write + std::io::Seek> Encoder<W> {
     /// or if the frame's parameters are not a match
     /// for the encoder's.
     fn encode(&mut self, frame: &Frame) -> Result<(), Error> {
+        #[cfg(flac_codec_verif)]
+        crate::verif::emit(crate::verif::Event::EncodeBegin {
+            samples_before: self.samples_written,
+            pcm_frames: frame.pcm_frames() as u64,
+            bytes_so_far: self.writer.count,
+        });
         // drop in a new seekpoint
         self.seekpoints.push(EncoderSeekPoint {
             sample_offset: self.samples_written,
@@ -2027,6 +2033,12 @@ impl<W: std::io::Write + std::io::Seek> Encoder<W> {
 
             self.finalized = true;
 
+            #[cfg(flac_codec_verif)]
+            crate::verif::emit(crate::verif::Event::FinalizeBegin {
+                bytes_so_far: self.writer.count,
+                samples_written: self.samples_written,
+            });
+
             // update SEEKTABLE metadata block with final values
             if let Some(encoded_points) = self
                 .options
@@ -2040,6 +2052,8 @@ impl<W: std::io::Write + std::io::Seek> Encoder<W> {
 
                         // ensure points count is the same
 
+                        #[cfg(flac_codec_verif)]
+                        crate::verif::emit(crate::verif::Event::FinalizeBranch { branch: "refill" });
                         let points_len = points.len();
                         points.clear();
                         points
@@ -2057,6 +2071,9 @@ impl<W: std::io::Write + std::io::Seek> Encoder<W> {
                         // so try to shrink PADDING to fit SEEKTABLE
 
                         use crate::metadata::MetadataBlock;
+
+                        #[cfg(flac_codec_verif)]
+                        crate::verif::emit(crate::verif::Event::FinalizeBranch { branch: "carve" });
 
                         let seektable = SeekTable {
                             points: encoded_points
@@ -2867,6 +2884,10 @@ fn encode_subframe<'c>(
 ) -> Result<&'c BitRecorder<u32, BigEndian>, Error> {
     const WASTED_MAX: NonZero<u32> = NonZero::new(32).unwrap();
 
+    #[cfg(flac_codec_verif)]
+    let _verif_guard =
+        crate::verif::task_guard("subframe", fixed_cache as *const FixedCache as usize);
+
     debug_assert!(!channel.is_empty());
 
     if all_0 {
@@ -3031,6 +3052,9 @@ fn encode_fixed_subframe<W: BitWrite>(
 ) -> Result<(), Error> {
     use crate::stream::{SubframeHeader, SubframeHeaderType};
 
+    #[cfg(flac_codec_verif)]
+    let _verif_guard = crate::verif::task_guard("fixed", buffers as *const [Vec<i32>; 4] as usize);
+
     // calculate residuals for FIXED subframe orders 0-4
     // (or fewer, if we don't have enough samples)
     let (order, warm_up, residuals) = {
@@ -3099,6 +3123,9 @@ fn encode_lpc_subframe<W: BitWrite>(
     wasted_bps: u32,
 ) -> Result<(), Error> {
     use crate::stream::{SubframeHeader, SubframeHeaderType};
+
+    #[cfg(flac_codec_verif)]
+    let _verif_guard = crate::verif::task_guard("lpc", cache as *const LpcCache as usize);
 
     let LpcSubframeParameters {
         warm_up,
@@ -4016,4 +4043,87 @@ where
     N: std::ops::Div<Output = N> + std::ops::Rem<Output = N> + std::cmp::PartialEq + Copy + Default,
 {
     (n % rhs == N::default()).then_some(n / rhs)
+}
+
+/// Verification accessors and wrappers (only with `--cfg flac_codec_verif`)
+#[cfg(flac_codec_verif)]
+pub mod verif {
+    use super::*;
+
+    /// Projection of a writer's internal state
+    #[derive(Debug, Clone, Copy, PartialEq, Eq)]
+    pub struct WriterState {
+        /// units (bytes or samples; per channel for the channel writer) carried over
+        pub carry: usize,
+        /// channel-independent samples encoded so far
+        pub samples_written: u64,
+        /// frames encoded so far
+        pub frames: usize,
+        /// bytes emitted by the frame writer so far
+        pub bytes: u64,
+        /// whether finalize already ran
+        pub finalized: bool,
+    }
+
+    impl<W: std::io::Write + std::io::Seek, E: crate::byteorder::Endianness> FlacByteWriter<W, E> {
+        /// Projection of the internal state
+        pub fn verif_state(&self) -> WriterState {
+            WriterState {
+                carry: self.buf.len(),
+                samples_written: self.encoder.samples_written,
+                frames: self.encoder.seekpoints.len(),
+                bytes: self.encoder.writer.count,
+                finalized: self.finalized,
+            }
+        }
+    }
+
+    impl<W: std::io::Write + std::io::Seek> FlacSampleWriter<W> {
+        /// Projection of the internal state
+        pub fn verif_state(&self) -> WriterState {
+            WriterState {
+                carry: self.sample_buf.len(),
+                samples_written: self.encoder.samples_written,
+                frames: self.encoder.seekpoints.len(),
+                bytes: self.encoder.writer.count,
+                finalized: self.finalized,
+            }
+        }
+    }
+
+    impl<W: std::io::Write + std::io::Seek> FlacChannelWriter<W> {
+        /// Projection of the internal state
+        pub fn verif_state(&self) -> WriterState {
+            WriterState {
+                carry: self.channel_bufs[0].len(),
+                samples_written: self.encoder.samples_written,
+                frames: self.encoder.seekpoints.len(),
+                bytes: self.encoder.writer.count,
+                finalized: self.finalized,
+            }
+        }
+    }
+
+    /// Runs the private residual writer and returns the bytes it produced
+    /// (zero padded to a byte boundary)
+    pub fn write_residuals(
+        max_partition_order: u32,
+        use_rice2: bool,
+        predictor_order: usize,
+        residuals: &[i32],
+    ) -> Result<Vec<u8>, Error> {
+        let options = EncoderOptions {
+            max_partition_order,
+            mid_side: false,
+            seektable_interval: None,
+            max_lpc_order: None,
+            window: Window::default(),
+            exhaustive_channel_correlation: false,
+            use_rice2,
+        };
+        let mut w = BitWriter::endian(Vec::new(), BigEndian);
+        super::write_residuals(&options, &mut w, predictor_order, residuals)?;
+        w.byte_align()?;
+        Ok(w.into_writer())
+    }
 }
